@@ -1,4 +1,7 @@
 import HermesProps.AuditCmd
 import HermesProps.C01
 import HermesProps.C12
+import HermesProps.C14
 import HermesProps.C17
+import HermesProps.C19
+import HermesProps.C20
